@@ -242,7 +242,9 @@ CLAIMS = {
         'and type families are decided again here (R8.7); the obligations of C05 about petl.transform.sorts are decided again '
         '(R8.8). An early exit of a probe loop is decided with a count-budget value: sound on sum(counts) kept in step, a '
         'violation on the number of distinct rows. A sort skipped on a condition about the input that never reads `reverse` is '
-        'a violation (R8.4).',
+        'a violation (R8.4). rowgetter, the projection that cuts b by the header of a, is decided by a finite-domain evaluation '
+        'of its source (own evaluator, opaque cells): every index tuple of length 0..4 over positions 0..3 x row length 0..5 '
+        'yields tuple(row[i] for i in indices) or IndexError (R8.9).',
    ref='DESIGN.md §4 C08',
    note='necessary conditions only: the step tables are derived by hand from the multiset definitions (trusted); that the table '
         'implies the algebra for every input rests on Comparable being a total preorder consistent with == (C04) and on the '
